@@ -79,9 +79,13 @@ func C13(c *Ctx) {
 		"(ii) in the MsgServer method every instruction that can lead to a store write/delete or bank movement is guarded (cut-reachability over the CFG, looking through bool/error helpers) by the entitlement predicate over that same field: whitelist membership, membership in params.EntSigners, equality with the stored Owner of the registration named in the message, or equality of req.Authority with the keeper authority; " +
 		"for streams, every access to the stream section and every bank transfer reachable from the handler is instantiated up the call chain and must use key (addr(msg.Receiver), addr(msg.Sender)) and pay/debit the party the operation belongs to; " +
 		"(iii) A5 wiring: the four custom keepers receive NewModuleAddress(gov) as authority and store it unchanged; SetPubKey/SigVerification/IncrementSequence decorators are in the ante chain; legacy NewHandler closures only forward to the MsgServer. Quantifies over all paths and call sites; signature cryptography is trusted."
-	r.Rules = []string{"A7.getsigners", "A2.entitlement-guard", "A7.stream-roles", "A5.authority-wiring", "A5.sig-decorators", "A3.decorator-continues", "A1.legacy-handler", "A6.entitlement-from-state", "A2.whitelist-action"}
+	r.Rules = []string{"A7.getsigners", "A2.entitlement-guard", "A7.stream-roles", "A5.authority-wiring", "A5.sig-decorators", "A3.decorator-continues", "A1.legacy-handler", "A6.entitlement-from-state", "A2.whitelist-action", "A3.update-stores"}
 	// the purchaser's entitlement is its whitelist entry: the entry changed by a whitelist message is the named address's
 	whitelistRules(c)
+	// a parameter update by the authority takes effect as submitted (the signer set it names is the one in force)
+	for _, m := range ir.Modules {
+		updateTakesEffect(c, m)
+	}
 	r.Trusted = []string{"cosmos-sdk x/auth ante: SigVerificationDecorator verifies GetSigners() signatures", "baseapp message routing to registered MsgServer"}
 	r.NotDecided = []string{"signature verification itself", "state may change between check and use within one handler (ignored)"}
 
